@@ -170,6 +170,38 @@ Proof.
   apply (oi_word _ (OInv_run ops finit Hpo FInv_init OInv_init Hs)).
 Qed.
 
+(* ... and still at quiescence (the flush in progress finished, every node of [nodes] woken once more) *)
+Lemma FO_drain s : FInv s -> OInv s -> let s' := drain (drain_fuel s) true s in FInv s' /\ OInv s'.
+Proof.
+  intros Hi Ho. cbv zeta.
+  destruct (drain_inv (fun x => FInv x /\ OInv x)
+              (fun x e r H _ _ => conj (FInv_begin x (proj1 H)) (OInv_begin x (proj2 H)))
+              (fun x e H _ => conj (FInv_end x true (proj1 H)) (OInv_end x true (proj1 H) (proj2 H)))
+              (drain_fuel s) s (conj Hi Ho) (drain_fuel_ok s)) as [G _].
+  exact G.
+Qed.
+
+Lemma FO_quiesce nodes : forall s, FInv s -> OInv s ->
+  let s' := fold_left (fun st n => let st1 := fstep true st (FWake n) in drain (drain_fuel st1) true st1) nodes s in
+  FInv s' /\ OInv s'.
+Proof.
+  induction nodes as [|n r IH]; intros s Hi Ho; cbn [fold_left]; [split; assumption|].
+  destruct (FO_drain _ (FInv_wake s n Hi) (OInv_wake s n Hi Ho)) as [G1 G2]. cbv zeta in *.
+  exact (IH _ G1 G2).
+Qed.
+
+Theorem writes_in_send_order_quiesced ops nodes :
+  Forall parks_only ops -> StronglySorted Z.lt (sent_tags ops) ->
+  let s := quiesce true (frun true finit ops) nodes in
+  forall a k t1 b t2, f_written s = a ++ (k, t1) :: b -> In (k, t2) b -> t1 < t2.
+Proof.
+  intros Hpo Hs. cbv zeta. apply word_split.
+  destruct (FInv_run ops finit Hpo FInv_init (sorted_nodup _ Hs)) as [Hi _].
+  pose proof (OInv_run ops finit Hpo FInv_init OInv_init Hs) as Ho.
+  unfold quiesce. destruct (FO_drain _ Hi Ho) as [G1 G2]. cbv zeta in *.
+  destruct (FO_quiesce nodes _ G1 G2) as [_ K]. cbv zeta in K. exact (oi_word _ K).
+Qed.
+
 (* the known finding C09:direct-race is exactly a violation of this order: with a direct send in
    flight the stale parked value 100 is written after the newer 101 *)
 Theorem send_order_direct_race_refuted :
